@@ -57,6 +57,8 @@ MUTANTS += [
     ('flood_fill_through_opaque', G + 'envs/visibility_functions.py', "        if not grid[position].blocks_vision:\n            for next_position", "        if True:\n            for next_position", ['C06']),
     ('light_updated_before_counting', G + 'envs/visibility_functions.py', "            counts_num[pos.y, pos.x] += int(light)\n            counts_den[pos.y, pos.x] += 1\n            light = light and not grid[pos].blocks_vision", "            light = light and not grid[pos].blocks_vision\n            counts_num[pos.y, pos.x] += int(light)\n            counts_den[pos.y, pos.x] += 1", ['C06'], 2),
     ('stochastic_probs_not_clipped', G + 'envs/visibility_functions.py', "    probs = np.nan_to_num(counts_num / counts_den)", "    probs = np.nan_to_num(counts_num / counts_den) + 0.2", ['C06']),
+    ('stochastic_probability_epsilon', G + 'envs/visibility_functions.py', "    probs = np.nan_to_num(counts_num / counts_den)", "    probs = counts_num / (counts_den + 1e-8)", ['C06']),
+    ('stochastic_noise_float32_nonstrict', G + 'envs/visibility_functions.py', "    visibility = rng.random(probs.shape) < probs", "    visibility = rng.random(probs.shape, dtype=np.float32) <= probs", ['C06']),
     # ---- C09
     ('drop_overwrites_anything', T, "    can_be_dropped = isinstance(obj_front, Floor) or obj_front.holdable", "    can_be_dropped = True", ['C09']),
     ('obstacle_moves_by_assignment', T, "            state.grid.swap(position, next_position)", "            state.grid[next_position] = state.grid[position]", ['C09', 'C11']),
